@@ -20,6 +20,8 @@ func checkC12(c *Ctx) {
 	c.Rule("C12-R4", "release ('m') and motion without a pressed button force 'no button' (|3, &^0x40); the press flag is cleared on release and set only by a non-motion, non-wheel press")
 	c.Rule("C12-R5", "both mouse parsers accept ESC [ and 0x9b as introducer")
 	c.Rule("C12-R8", "the rune parser, which runs before the mouse parsers, removes input only as decoded characters (with an event, or by the decoder's count): an 8-bit CSI (0x9b) it cannot decode stays in the buffer for the mouse parsers")
+	c.Rule("C12-R9", "a mouse report consumes exactly the bytes it matched (both protocols): the next report of a drag starts where this one ended")
+	c.Expect("C12-R9", 2)
 	c.Expect("C12-R8", 2)
 	c.Rule("C12-R7", "the bytes of a report reach the parser as they were read (a chunk queued for the main loop owns its backing array)")
 	c.Expect("C12-R7", 1)
@@ -47,6 +49,13 @@ func checkC12(c *Ctx) {
 	for _, pi := range inputParsers(p) {
 		if pi.fn.Name() == "parseRune" {
 			c.asRule("C02-R9", "C12-R8", func() { c02Consumption(c, p, pi) })
+		}
+	}
+	// R9: a mouse report consumes exactly its own bytes — the next report (or key) starts where this
+	// one ended; one byte more or less and every following report of a drag decodes from the wrong offset
+	for _, pi := range inputParsers(p) {
+		if pi.fn == sgr || pi.fn == x11 {
+			c.asRule("C02-R9", "C12-R9", func() { c02Consumption(c, p, pi) })
 		}
 	}
 	// R2
